@@ -1,1 +1,159 @@
+(* C14 — Module discovery matches the import system, independent of listing order.
+   Property theorems only: each closed by [exact] of a lemma from Proofs/, followed by Print Assumptions.
+   Model: Model/C14_finder.v (finder.py find_package / iter_submodules / submodules / .pth extension, loader.py submodule
+   attachment, in static mode) and the authority (CPython's FileFinder/PathFinder, pkgutil, site). *)
+From Coq Require Import List ZArith String Ascii Bool Arith.
 From Verif Require Import Lib.Sexp Model.C14_finder Proofs.C14_finder.
+Import ListNotations.
+Open Scope string_scope. Open Scope list_scope.
+
+(* Top-level precedence: for every universe of directories and every search-path list, find_package answers what
+   CPython's PathFinder answers (package directory with __init__.py > module file > namespace portions; the first
+   regular hit wins, namespace portions are collected in search-path order) -- provided the search directories offer
+   the name only in source form ([top_ok]: no compiled module/__init__, no stub-only package, no pkgutil declaration). *)
+Theorem C14_find_eq_cpython :
+  forall U name paths,
+  forallb (top_ok U name) paths = true ->
+  find_agree (g_find U name paths []) (py_find U name (top_dirs paths)).
+Proof. exact find_eq_cpython. Qed.
+Print Assumptions C14_find_eq_cpython.
+
+(* ... and each of the three exclusions is necessary. *)
+Theorem C14_find_eq_refuted_outside_scope :
+  (exists U, ~ find_agree (g_find U "aa" [0] []) (py_find U "aa" (top_dirs [0]))) /\
+  (exists U, g_find U "aa" [0; 1] [] = FPkg (0, ["aa"; "__init__.pyi"]) None /\ py_find U "aa" (top_dirs [0; 1]) = PyMod (1, ["aa.py"])) /\
+  (exists U, g_find U "aa" [0] [] = FNs [(0, ["aa"])] /\ exists l, py_find U "aa" (top_dirs [0]) = PyPkg (0, ["aa"; "__init__.py"]) l).
+Proof. exact find_eq_refuted_outside_scope. Qed.
+Print Assumptions C14_find_eq_refuted_outside_scope.
+
+(* find_package does not depend on the order in which any directory is listed. *)
+Theorem C14_find_order_invariant :
+  forall U U' name paths nsacc,
+  perm_universe U U' -> wf_universe U ->
+  g_find U name paths nsacc = g_find U' name paths nsacc.
+Proof. exact find_order_invariant. Qed.
+Print Assumptions C14_find_order_invariant.
+
+(* The loader's fold over ANY depth-sorted list of submodule entries below a regular top module, key by key:
+   a dotted name is present iff every prefix of it has a loadable candidate file, and then holds the merge of its
+   candidates in list order; no namespace module ever appears below a regular package. *)
+Theorem C14_loaded_characterisation :
+  forall top E,
+  sorted E -> (forall e, In e E -> e_parts e <> []) ->
+  all_files (run top E) /\ forall k, lookup_m k (run top E) = spec_lookup top E k.
+Proof. exact run_spec. Qed.
+Print Assumptions C14_loaded_characterisation.
+
+(* Listing-order invariance, regular packages of any depth: permuting every directory listing of the universe
+   (os.walk's files-before-directories contract is part of [walk]) leaves the static load of the package unchanged
+   (same error, or the same module at every dotted name), provided no two yielded files claim one module name other
+   than a module and its stubs ([no_clash], decidable: [no_clashb]). *)
+Theorem C14_listing_order_invariant_regular :
+  forall U U' name paths,
+  perm_universe U U' -> wf_universe U ->
+  (forall p st es, g_find U name paths [] = FPkg p st -> iter_regular U p = Ok es -> no_clash es) ->
+  (forall ds, g_find U name paths [] <> FNs ds) ->
+  same_tree (load_found false U (g_find U name paths [])) (load_found false U' (g_find U' name paths [])).
+Proof. exact load_order_invariant_regular. Qed.
+Print Assumptions C14_listing_order_invariant_regular.
+
+(* The no_clash hypothesis is needed (finding F5), and the search paths themselves depend on the listing order
+   of .pth files (finding F2). *)
+Theorem C14_listing_order_refuted_F5 :
+  exists U U' sps name, perm_universe U U' /\ wf_universe U /\ any_listing gapL_F5 U = true /\
+                        ~ same_tree (load false U sps name) (load false U' sps name).
+Proof. exact listing_order_refuted_F5. Qed.
+Print Assumptions C14_listing_order_refuted_F5.
+
+Theorem C14_paths_order_refuted_F2 :
+  perm_universe U_F2a U_F2b /\ gapU_F2_multi U_F2a = true /\
+  g_paths U_F2a [0] = Some [0; 2; 1] /\ g_paths U_F2b [0] = Some [0; 1; 2] /\ py_paths U_F2b [0] = [0; 2; 1] /\
+  ~ same_tree (load false U_F2a [0] "aa") (load false U_F2b [0] "aa").
+Proof. exact paths_order_refuted_F2. Qed.
+Print Assumptions C14_paths_order_refuted_F2.
+
+Theorem C14_paths_eq_refuted_F6 : gapU_F6 U_F6 = true /\ g_paths U_F6 [0] = Some [0] /\ py_paths U_F6 [0] = [0; 1].
+Proof. exact paths_eq_refuted_F6. Qed.
+Print Assumptions C14_paths_eq_refuted_F6.
+
+Theorem C14_paths_eq_refuted_F7 : gapU_F7 U_F7 = true /\ g_paths U_F7 [0] = Some [0; 1; 2] /\ py_paths U_F7 [0] = [0; 1].
+Proof. exact paths_eq_refuted_F7. Qed.
+Print Assumptions C14_paths_eq_refuted_F7.
+
+(* "Every loaded module is importable from that file (or stub-only)" is false of the unchanged code: one witness
+   per finding, each satisfying exactly its own gap predicate. *)
+Theorem C14_loaded_importable_refuted_F1 :
+  exists U sps name, any_listing gapL_F1 U = true /\ loaded_importable U sps name = false.
+Proof. exact loaded_importable_refuted_F1. Qed.
+Print Assumptions C14_loaded_importable_refuted_F1.
+
+Theorem C14_namespace_first_portion_wins_refuted_F3 :
+  exists U sps name, gaps U sps name = ["F3"] /\ loaded_importable U sps name = false.
+Proof. exact namespace_first_portion_wins_refuted_F3. Qed.
+Print Assumptions C14_namespace_first_portion_wins_refuted_F3.
+
+Theorem C14_namespace_first_portion_wins_refuted_F8 :
+  exists U sps name, gaps U sps name = ["F8"] /\ loaded_importable U sps name = false.
+Proof. exact namespace_first_portion_wins_refuted_F8. Qed.
+Print Assumptions C14_namespace_first_portion_wins_refuted_F8.
+
+Theorem C14_namespace_portion_dirs_refuted_F9 :
+  exists U sps name, gaps U sps name = ["F9"] /\ loaded_importable U sps name = false.
+Proof. exact namespace_portion_dirs_refuted_F9. Qed.
+Print Assumptions C14_namespace_portion_dirs_refuted_F9.
+
+Theorem C14_namespace_first_portion_wins_refuted_F10 :
+  exists U sps name, gaps U sps name = ["F10"] /\ loaded_importable U sps name = false.
+Proof. exact namespace_first_portion_wins_refuted_F10. Qed.
+Print Assumptions C14_namespace_first_portion_wins_refuted_F10.
+
+(* Loading is not total: a dot-file with a module extension aborts the load of a package CPython imports (F4). *)
+Theorem C14_load_total_refuted_F4 :
+  exists U sps name, any_listing gapL_F4 U = true /\ load false U sps name = LErr "ValueError" /\
+                     exists i l, py_find U name (top_dirs (py_paths U sps)) = PyPkg i l.
+Proof. exact load_total_refuted_F4. Qed.
+Print Assumptions C14_load_total_refuted_F4.
+
+(* The .pth loop of _extend_from_pth_files iterates over the list it appends to; the model runs it with explicit
+   fuel.  The fuel g_paths passes always suffices, so the model's OutOfFuel result is never produced, for any layout. *)
+Theorem C14_search_path_extension_fuel_sufficient : forall U sps, g_paths U sps <> None.
+Proof. exact g_paths_fuel_sufficient. Qed.
+Print Assumptions C14_search_path_extension_fuel_sufficient.
+
+Theorem C14_load_never_out_of_fuel : forall insp U sps name, load insp U sps name <> LErr "OutOfFuel".
+Proof. exact load_never_out_of_fuel. Qed.
+Print Assumptions C14_load_never_out_of_fuel.
+
+(* Loaded => importable, regular packages of any depth (the positive half of the property, modulo known findings).
+   D is the package directory, L0 its listing, es the set of entries iter_submodules yields for it, top its
+   __init__ file.  Whatever the static loader puts at a dotted name k below the package is the file CPython's
+   import system resolves k to from the package's __path__ (module file or package __init__), or it is a stub and
+   CPython finds no regular module there -- provided the package tree is in source form (no compiled file names, no
+   pkgutil-style declaration), no two files claim one module name (no_clash, cf. F5) and nothing is yielded below
+   the name of a plain module file (the shape of finding F1). *)
+Theorem C14_loaded_importable_modulo_known :
+  forall U D L0 es top k f,
+  listing_at U D = Some L0 -> deep_nodup L0 ->
+  (forall q Lq, get_node L0 q = Some (Dir Lq) ->
+     (forall n s, In s compiled_suffixes -> has_file (n ++ s)%string Lq = false) /\
+     (forall ns pth, lookup_entry "__init__.py" Lq = Some (File ns pth) -> ns = false)) ->
+  (forall e, In e es <-> exists rel, In rel (walk [] (Dir L0)) /\ yields D rel e) ->
+  no_clash es ->
+  (forall m e, In m es -> In e es -> entry_ok m = true ->
+               name_to_yield (e_rel m) = YMod (e_parts m) -> is_proper_prefix (e_parts m) (e_parts e) = false) ->
+  lookup_m k (run top (depth_sort es)) = Some (MFile f) -> k <> [] ->
+  (forall c, In c k -> c <> "" /\ c <> "__init__" /\ c <> "__pycache__") ->
+  agrees (MFile f) (py_import U [D] k) = true.
+Proof. exact loaded_importable_regular. Qed.
+Print Assumptions C14_loaded_importable_modulo_known.
+
+(* The same on the model's own static load of a regular package found at (i, dirc ++ ["__init__.py"]), with the
+   hypotheses in decidable form ([in_domain], evaluated by the extracted model on every generated layout at run time). *)
+Theorem C14_loaded_importable_regular_checked :
+  forall U i dirc st M,
+  in_domain U i dirc = true ->
+  load_found false U (FPkg (i, dirc ++ ["__init__.py"]) st) = LOk M ->
+  forall k f, lookup_m k M = Some (MFile f) -> key_okb k = true ->
+  agrees (MFile f) (py_import U [(i, dirc)] k) = true.
+Proof. exact loaded_importable_regular_checked. Qed.
+Print Assumptions C14_loaded_importable_regular_checked.
